@@ -421,3 +421,68 @@ func ruleWorkspaceReinit(c *Ctx) {
 	}
 	c.census("C12-REINIT", "calls of Workspace.Initialize", n, 1)
 }
+
+// rulePathSpelling (P-SPELL): a file is identified by the spelling of its path everywhere - the loader's ancestor
+// and loaded sets, its cache, the workspace index, the document store and the URIs of locations all compare
+// strings that went through filepath.Clean/Join/Abs and nothing else.  Resolving symbolic links at one of the
+// places where paths enter (a URI, an include directive, the workspace root) gives one file two names: a diamond
+// through a symlink loads it twice, an invalidation under the editor's name misses the cache entry, a location
+// carries a URI the editor does not have open.  The rule is a who-may-call rule: nothing in the module resolves
+// symbolic links.
+func rulePathSpelling(c *Ctx) {
+	n := 0
+	for _, f := range c.P.ModuleFuncs() {
+		for _, b := range f.Blocks {
+			for _, ins := range b.Instrs {
+				call, ok := ins.(ssa.CallInstruction)
+				if !ok {
+					continue
+				}
+				cal := call.Common().StaticCallee()
+				if cal == nil || cal.Pkg == nil {
+					continue
+				}
+				q := cal.Pkg.Pkg.Path() + "." + cal.Name()
+				switch q {
+				case "path/filepath.Clean", "path/filepath.Join", "path/filepath.Abs":
+					n++
+				case "path/filepath.EvalSymlinks", "os.Readlink":
+					c.finding("P-SPELL", funcName(f), "no path is resolved through symbolic links", ins.Pos(),
+						q+" gives a file a second name: the rest of the module (include loader, cache invalidation, workspace index, document URIs) identifies files by the spelling produced by filepath.Clean/Join/Abs, so a file reached both ways is loaded twice, its cycles are reported late or not at all, and invalidations and locations under the editor's name miss it")
+				}
+			}
+		}
+	}
+	c.census("P-SPELL", "lexical path normalisations (Clean/Join/Abs) in module code", n, 5)
+}
+
+// ruleSingleLoader (L-SINGLE): include loaders are created by constructors only.  The server configures one
+// loader (limits from the settings, cache invalidation on change and save) and hands it to the workspace; a
+// second loader created on a later path has default limits and a cache nobody invalidates.
+func ruleSingleLoader(c *Ctx) {
+	n := 0
+	for _, f := range c.P.ModuleFuncs() {
+		for _, b := range f.Blocks {
+			for _, ins := range b.Instrs {
+				call, ok := ins.(ssa.CallInstruction)
+				if !ok {
+					continue
+				}
+				cal := call.Common().StaticCallee()
+				if cal == nil || cal.Pkg == nil || !strings.HasSuffix(cal.Pkg.Pkg.Path(), "internal/include") || cal.Name() != "NewLoader" {
+					continue
+				}
+				n++
+				top := f
+				for top.Parent() != nil {
+					top = top.Parent()
+				}
+				isCtor := top.Signature.Recv() == nil && strings.HasPrefix(top.Name(), "New")
+				c.check(isCtor, "L-SINGLE", funcName(f), "include loaders are created by constructors only", ins.Pos(),
+					"the loader is created while its owner is constructed",
+					"an include loader is created outside a constructor: it has the default limits (the configured include depth and file size do not apply to what it loads) and its cache is not the one the change and save handlers invalidate")
+			}
+		}
+	}
+	c.census("L-SINGLE", "creations of an include loader", n, 1)
+}
